@@ -289,3 +289,38 @@ def main_wrapper(pid: str, fn):
                 else:
                     p.unlink(missing_ok=True)
     sys.exit(rc)
+
+
+# ------------------------------------------------------- generic TLC trace judge
+def tlc_judge(module: str, cfg: str, traces: list, ev: "Evidence", label: str, chunk: int = 40000,
+              wrap=None, timeout: int = 1700):
+    """Write `traces` (JSON) in chunks, run the trace specification under TLC, collect
+    <<"FAIL", tid, clause>> / <<"DRIFT", tid, ...>> / <<"DONE", tid>> lines.
+    Returns (fails [(index, clause)], drifts [(index, rest)]) with 0-based indices."""
+    fails, drifts = [], []
+    WORK.mkdir(exist_ok=True)
+    for b in range(0, len(traces), chunk):
+        part = traces[b:b + chunk]
+        tf = WORK / f"trace-{os.getpid()}-{time.time_ns()}.json"
+        tf.write_text(json.dumps(wrap(part) if wrap else part))
+        try:
+            r = run_tlc(module, cfg, env={"TRACE_FILE": str(tf)}, timeout=timeout)
+        finally:
+            tf.unlink(missing_ok=True)
+        tlc_must_pass(r, f"{module} {label}")
+        done = set()
+        for line in r.out.splitlines():
+            if line.startswith('<<"FAIL", '):
+                m = re.match(r'^<<"FAIL", (\d+), "([\w.]+)">>$', line)
+                if not m:
+                    raise MachineryError(f"unparsable line from {module}: {line[:200]}")
+                fails.append((b + int(m.group(1)) - 1, m.group(2)))
+            elif line.startswith('<<"DRIFT", '):
+                m = re.match(r'^<<"DRIFT", (\d+)(.*)>>$', line)
+                drifts.append((b + int(m.group(1)) - 1, m.group(2)))
+            elif line.startswith('<<"DONE", '):
+                done.add(int(line[10:-2]))
+        if len(done) != len(part):
+            raise MachineryError(f"{module} {label}: {len(done)} of {len(part)} traces judged to the end")
+        ev.add_tlc(f"{module}[{label}#{b // chunk}]", r, f"{len(part)} recorded traces")
+    return fails, drifts
